@@ -486,7 +486,44 @@ def run_misscoped(chunk, st):
                      'from_bytes accepted %s under %s (%s)'
                      % (inner, outer, place), case)
 
-    st.bulk(2, 2, sample=case)
+    n = 2
+
+    if place in ('change-preamble', 'change-preamble-own'):
+        # the writer's side: text the encoding in effect cannot represent
+        # is refused -- not written in some other encoding
+        import io
+
+        for narrow, text in (('ascii', 'caf\xe9'), ('latin-1', '5 \u20ac'),
+                             ('cp1252', '\u4e2d')):
+            stream = io.BytesIO()
+            w = ns.DiffXWriter(stream, encoding='utf-8')
+            own = {}
+
+            if place == 'change-preamble':
+                w.new_change(encoding=narrow)
+            else:
+                w.new_change(encoding=outer)
+                own = {'encoding': narrow}
+
+            before = stream.getvalue()
+            n += 1
+
+            try:
+                w.write_preamble(text, **own)
+            except Exception:
+                if stream.getvalue() != before:
+                    st.violation('refused-text-wrote-bytes',
+                                 repr(stream.getvalue()[len(before):]),
+                                 dict(case, narrow=narrow))
+
+                continue
+
+            st.violation('writer-used-an-encoding-nobody-declared',
+                         'write_preamble(%r) where %s is in effect wrote %r'
+                         % (text, narrow, stream.getvalue()[len(before):]),
+                         dict(case, narrow=narrow))
+
+    st.bulk(n, n, sample=case)
 
 
 def run_misscoped_case(case, st):
@@ -522,8 +559,10 @@ def checks():
                  '(latin-1, cp1252, koi8-r), at six places of the '
                  'hierarchy: reader and from_bytes must refuse that '
                  'section with DiffXParseError after exactly the records '
-                 'before it -- never decode it with the outer encoding; '
-                 'all non-trivial',
+                 'before it -- never decode it with the outer encoding; the '
+                 'writer must refuse (writing nothing) a preamble the '
+                 'encoding in effect (own or inherited: ascii, latin-1, '
+                 'cp1252) cannot represent; all non-trivial',
             bound={'quick': '2 x 3 x 6 files', 'thorough': 'same'}),
         HypCheck(
             'random-histories', strategy, run_case,
